@@ -1423,7 +1423,12 @@ STD (sock_getsockopt_fail_accept, "sock_new 0 0 9", "sock_listen 0 9", "sock_new
 STD (shm_fstat_fail, "shm_new 0 0 0 9", "shm_cycle 0 9", "sysfail fstat", "shm_new 1 0 0 9", "shm_free 1", "shm_cycle 0 9", "shm_new 1 0 2 9", "shm_free 1", "shm_free 0",
      "sysfail fstat", "shmbuf_new 2 1 0 9", "shmbuf_new 3 1 0 9", "shmbuf_rw 2 9", "shmbuf_free 3", "shmbuf_free 2", "err_free 9")
 STD (shm_mmap_fail_existing, "shm_new 0 0 0 9", "shm_cycle 0 9", "sysfail mmap", "shm_new 1 0 0 9", "shm_free 1", "shm_cycle 0 9", "shm_free 0", "err_free 9")
-STD (shmbuf_own, "shmbuf_new 0 1 0 9", "shmbuf_new 1 1 0 9", "shmbuf_fill 0 9", "shmbuf_free 0", "shmbuf_own 1", "shmbuf_rw 1 9", "shmbuf_free 1", "err_free 9")
+/* ownership taken by a handle that did not create the object, while a third handle is still alive: the free of the new owner is
+ * the one that removes the names (seen by the resource counts after that call when the scenario runs as a C20 sequence) */
+STD (shmbuf_own, "shmbuf_new 0 1 0 9", "shmbuf_new 1 1 0 9", "shmbuf_fill 0 9", "shmbuf_free 0", "shmbuf_new 2 1 0 9", "shmbuf_own 1", "shmbuf_rw 1 9", "shmbuf_free 1",
+     "shmbuf_rw 2 9", "shmbuf_free 2", "err_free 9")
+STD (own_last, "sem_new 0 0 0 9", "sem_new 1 0 0 9", "sem_free 0", "sem_new 2 0 0 9", "sem_own 1", "sem_free 1", "sem_cycle 2 9", "sem_free 2",
+     "shm_new 0 1 0 9", "shm_new 1 1 0 9", "shm_free 0", "shm_new 2 1 0 9", "shm_own 1", "shm_free 1", "shm_cycle 2 9", "shm_free 2", "err_free 9")
 STD (thread_attr_fail, "sysfail pthread_attr_init", "thread_run 0 1 0 x", "thread_unref 0", "sysfail pthread_attr_setdetachstate", "thread_run 0 0 0 x", "thread_unref 0",
      "thread_run 0 1 0 x", "thread_unref 0")
 STD (thread_long_name, "thread_run_long 0 1 0 x", "thread_unref 0", "tls_new 1", "thread_run_long 0 0 1 1", "thread_unref 0", "tls_free 1")
@@ -1511,7 +1516,7 @@ static const struct { const char *name; void (*fn) (void); } SCENARIOS[] = {
 	E (loader_basic), E (loader_missing), E (loader_dlopen_fail), E (mmap_basic), E (mmap_fail),
 	E (cross_ini_containers), E (cross_dir_hash), E (cross_ipc_socket), E (cross_error_chain), E (cross_everything),
 	E (tree_bst_remove), E (tree_avl_remove), E (tree_rb_remove), E (err_set_twice), E (str_realloc), E (init_full), E (inval_dir_sock), E (inval_sock_ipc), E (inval_ipc_mem),
-	E (sa_refused), E (sock_getsockopt_fail), E (sock_getsockopt_fail_accept), E (shm_fstat_fail), E (shm_mmap_fail_existing), E (shmbuf_own), E (thread_attr_fail),
+	E (sa_refused), E (sock_getsockopt_fail), E (sock_getsockopt_fail_accept), E (shm_fstat_fail), E (shm_mmap_fail_existing), E (shmbuf_own), E (own_last), E (thread_attr_fail),
 	E (thread_long_name), E (mmap_unmap),
 	E (long_containers), E (long_system), E (long_ipc_threads),
 	{ NULL, NULL }
